@@ -188,7 +188,9 @@ def _coq_shard(args):
         f.write("Eval vm_compute in (map fst result).\n")
         f.write("Eval vm_compute in result.\n")
     t0 = time.time()
-    rc, out = sh(["coqc", "-noglob", "-Q", COQ, "Strand", path], cwd=wd, timeout=3000)
+    # large literals (thousand-element lists, kilobyte scripts) need more than the default 8 MB stack in coqc's parser
+    rc, out = sh(["bash", "-c", 'ulimit -s unlimited 2>/dev/null || ulimit -s 1000000 2>/dev/null; exec coqc -noglob -Q "$0" Strand "$1"', COQ, path],
+                 cwd=wd, timeout=3000)
     return k, rc, out, time.time() - t0
 
 
